@@ -25,9 +25,16 @@ type cop struct {
 	put  bool
 	key  uint64
 	size int // size class (put only); >= 10 means "that many values"
+	// reput: the caller changes the bitmap OBJECT it stored last under this key (adds `size` values, or empties it
+	// down to its id when size < 0) and stores the same object again. Without an earlier Put of the key it is an
+	// ordinary Put of size class 0.
+	reput bool
 }
 
 func (o cop) String() string {
+	if o.reput {
+		return fmt.Sprintf("R%d.%d", o.key, o.size)
+	}
 	if o.put {
 		return fmt.Sprintf("P%d.%d", o.key, o.size)
 	}
@@ -73,6 +80,7 @@ func mkbm(class int, id uint32) *roaring.Bitmap {
 type lruObs struct {
 	resident map[uint64]uint32 // key -> unique id found
 	bytes    uint64
+	putSize  uint64 // size of the bitmap handed to the last operation, if that was a Put
 }
 
 // lruRun executes ops on a fresh cache and probes all keys at the end.
@@ -93,9 +101,26 @@ func lruRun(capacity uint64, ops []cop, keys []uint64) (o lruObs, law string) {
 		return ""
 	}
 	for i, op := range ops {
-		if op.put {
-			bm := mkbm(op.size, uint32(i))
+		if op.reput && last[op.key] != nil {
+			bm := last[op.key] // the very object stored before; the expectation (last) moves along with it
+			if op.size >= 0 {
+				for v := 0; v < op.size; v++ {
+					bm.Add(uint32(3000000 + i*50000 + v*3))
+				}
+			} else {
+				bm.RemoveRange(0, idBase)
+			}
 			c.Put(op.key, bm)
+			o.putSize = bm.GetSizeInBytes()
+			eputs++
+		} else if op.put || op.reput {
+			class := op.size
+			if op.reput {
+				class = 0
+			}
+			bm := mkbm(class, uint32(i))
+			c.Put(op.key, bm)
+			o.putSize = bm.GetSizeInBytes()
 			last[op.key] = bm
 			lastID[op.key] = uint32(i)
 			eputs++
@@ -167,8 +192,8 @@ func (s *lruState) step(capacity uint64, ops []cop, keys []uint64, st *lruStats)
 	if law != "" {
 		return law
 	}
-	if op.put {
-		sz := mkbm(op.size, uint32(i-1)).GetSizeInBytes()
+	if op.put || op.reput {
+		sz := o.putSize
 		if old, was := s.maxSize[op.key]; was {
 			if _, res := s.prev.resident[op.key]; res {
 				if sz > old {
@@ -200,7 +225,7 @@ func (s *lruState) step(capacity uint64, ops []cop, keys []uint64, st *lruStats)
 		if _, still := o.resident[k]; still {
 			continue
 		}
-		if !op.put {
+		if !op.put && !op.reput {
 			return fmt.Sprintf("L3: op %d (%s) is a Get, yet key %d stopped being retrievable", i-1, op, k)
 		}
 		if k == op.key {
@@ -224,7 +249,7 @@ func (s *lruState) step(capacity uint64, ops []cop, keys []uint64, st *lruStats)
 		}
 	}
 	for k := range o.resident {
-		if _, was := s.prev.resident[k]; !was && !(op.put && k == op.key) {
+		if _, was := s.prev.resident[k]; !was && !((op.put || op.reput) && k == op.key) {
 			return fmt.Sprintf("L1: key %d became retrievable at op %d (%s) without being stored", k, i-1, op)
 		}
 	}
@@ -253,7 +278,7 @@ func opsString(ops []cop) string {
 
 func runC07(r *vf.Run) {
 	r.Rule("one evaluation = one prefix of an operation sequence replayed on a fresh LRUCache and probed (every key looked up at its end) with laws L1-L6 checked for its last operation; " +
-		"exhaustive part: all sequences over 3 keys x {Get, Put of 3 size classes} (12 symbols) up to the stated length for 5 capacities (DFS, every node is a prefix); " +
+		"exhaustive part: all sequences over 3 keys x {Get, Put of 3 size classes} plus the re-Put of the same object after the caller grew it (15 symbols) up to the stated length for 5 capacities (DFS, every node is a prefix); " +
 		"random part: sequences up to length 300 over <= 12 keys, sizes 8 B .. 4x capacity; distinct_nontrivial = distinct (capacity, sequence) nodes with >= 2 operations")
 	r.Assume("per-entry bookkeeping allowance of 256 bytes for 'fits' (the implementation's is 64 bytes)", "bitmaps are not mutated by the caller after Put")
 	keys := []uint64{1, 2, 3}
@@ -263,11 +288,12 @@ func runC07(r *vf.Run) {
 		for s := 0; s < 3; s++ {
 			syms = append(syms, cop{put: true, key: k, size: s})
 		}
+		syms = append(syms, cop{reput: true, key: k, size: 3000}) // the stored object grown by ~6 KB and stored again
 	}
 	r.Extra("size_classes_bytes", []uint64{mkbm(0, 1).GetSizeInBytes(), mkbm(1, 1).GetSizeInBytes(), mkbm(2, 1).GetSizeInBytes()})
 	maxLen := r.Pick(5, 6)
 	r.Extra("exhaustive_max_length", maxLen)
-	caps := []uint64{0, 150, 400, 9000, 1 << 20}
+	caps := []uint64{0, 150, 400, 9000, 1 << 20, 1<<64 - 1}
 	type task struct {
 		capacity uint64
 		first    cop
@@ -284,7 +310,7 @@ func runC07(r *vf.Run) {
 	r.ForEach(ids, 16, func(id string) {
 		t := tasks[id]
 		var st lruStats
-		var nodes int64
+		var nodes, deeper int64
 		bad := 0
 		var rec func(prefix []cop, pid string, state *lruState)
 		rec = func(prefix []cop, pid string, state *lruState) {
@@ -299,10 +325,16 @@ func runC07(r *vf.Run) {
 				}
 				return
 			}
-			if len(prefix) >= 2 {
+			if len(prefix) >= 2 && len(prefix) <= maxLen {
 				r.Distinct(pid)
+			} else if len(prefix) > maxLen {
+				deeper++ // counted, not remembered one by one (tens of millions of nodes)
 			}
-			if len(prefix) >= maxLen || bad > 2 {
+			limit := maxLen
+			if r.Thorough() && t.capacity == 400 {
+				limit = maxLen + 1 // one level deeper where evictions are densest
+			}
+			if len(prefix) >= limit || bad > 2 {
 				return
 			}
 			for _, s := range syms {
@@ -317,6 +349,7 @@ func runC07(r *vf.Run) {
 		rec([]cop{t.first}, id, newLRUState())
 		r.Eval(int(nodes))
 		r.Count("exhaustive_nodes", nodes)
+		r.Count("exhaustive_nodes_one_level_deeper", deeper)
 		r.Count("evictions_observed", st.evictions)
 		r.Count("evictions_where_a_get_hit_changed_the_victim", st.getChangedVictim)
 		r.Count("growing_overwrites_of_resident_key", st.growOverwrites)
@@ -348,7 +381,7 @@ func runC07(r *vf.Run) {
 			seq = []cop{{put: true, key: 1, size: 0}, {put: true, key: 1, size: 8000}, {key: 1}}
 			rk = []uint64{1}
 		} else {
-			capacity = []uint64{0, 100, 300, 1000, 5000, 20000, 1 << 22}[rng.Intn(7)]
+			capacity = []uint64{0, 100, 300, 1000, 5000, 20000, 1 << 22, 1 << 63, 1<<63 + 1, 1<<64 - 1}[rng.Intn(10)]
 			rk = rk[:2+rng.Intn(11)]
 			seq = randomLRUSeq(rng, capacity, rk, 5+rng.Intn(r.Pick(120, 296)))
 		}
@@ -384,7 +417,7 @@ func runC07(r *vf.Run) {
 		r.Guard("bulk", func() {
 			n := r.Pick(70000, 300000)
 			var g, p, h, m ix.Counter
-			c := updog.NewLRUCache(1<<31, updog.WithCacheMetrics(&updog.CacheMetrics{CacheHit: &h, CacheMiss: &m, GetCall: &g, PutCall: &p}))
+			c := updog.NewLRUCache([]uint64{1 << 31, 1<<64 - 1}[int(r.Seed)%2], updog.WithCacheMetrics(&updog.CacheMetrics{CacheHit: &h, CacheMiss: &m, GetCall: &g, PutCall: &p}))
 			shared := mkbm(1, 424242) // one bitmap object stored under several keys
 			for k := 0; k < n; k++ {
 				if k%1000 == 7 {
@@ -439,6 +472,9 @@ func randomLRUSeq(rng *rand.Rand, capacity uint64, keys []uint64, n int) []cop {
 		case 3:
 			// overwrite-with-larger pattern
 			seq = append(seq, cop{put: true, key: k, size: sizes[rng.Intn(3)]}, cop{put: true, key: k, size: sizes[len(sizes)-1-rng.Intn(3)]})
+		case 5:
+			// the same object changed and stored again (grown, or emptied)
+			seq = append(seq, cop{reput: true, key: k, size: []int{-1, 5, 500, 5000, sizes[len(sizes)-1]}[rng.Intn(5)]})
 		case 4:
 			// get-then-evict pattern: touch the oldest key, then insert a new one
 			seq = append(seq, cop{key: keys[0]}, cop{put: true, key: keys[len(keys)-1], size: sizes[rng.Intn(len(sizes))]})
